@@ -52,6 +52,56 @@ class C13(PropertyCheck):
     prop = "C13"
     theorem_file = "Properties/C13.v"
     spec_mode = None
+    digest_opts = {"with_mem": False}     # also for the framework's shrinker (in-place set mutation is C19's topic)
+
+    def fixed_probe(self, sid, presets, argv):
+        s = Script(sid, {"now": NOW})
+        for k, v in presets:
+            s.preset(0, k, v, 0)
+        s.digest(); s.cmd(0, *argv); s.digest()
+        s.probe = True
+        return s
+
+    def directed(self):
+        """(1) the algebra commands without destination on 1..7 operands that all exist (a divide-and-conquer or in-place
+        fold shows only for some operand counts); (2) multi-key writers whose second key has the wrong type while the first
+        is fine: the command must fail and change nothing (a handler that edits the source before checking the destination)."""
+        out, n = [], 0
+        sets = [("k%d" % i, vset(["m%d" % i, "m%d" % (i + 1), "c"])) for i in range(1, 8)]
+        zsets = [("k%d" % i, vzset({"m%d" % i: "%d/1" % i, "m%d" % (i + 1): "1/2", "c": "3/1"})) for i in range(1, 8)]
+        for cnt in range(1, 8):
+            keys = ["k%d" % i for i in range(1, cnt + 1)]
+            for w in ("SUNION", "SINTER", "SDIFF", "SINTERCARD"):
+                out.append(self.fixed_probe("dir%d" % n, sets, [w] + keys)); n += 1
+            for w in ("ZUNION", "ZINTER", "ZDIFF"):
+                out.append(self.fixed_probe("dir%d" % n, zsets, [w] + keys)); n += 1
+                out.append(self.fixed_probe("dir%d" % n, zsets, [w] + keys + ["WITHSCORES"])); n += 1
+            for w in ("ZUNION", "ZINTER"):
+                out.append(self.fixed_probe("dir%d" % n, zsets, [w] + keys + ["WEIGHTS"] + ["1"] * cnt + ["AGGREGATE", "MAX"])); n += 1
+        base = [("s", vset(["m1", "m2"])), ("l", vlist(["x", "y"])), ("h", vhash({"f": vstr("v")})), ("z", vzset({"m1": "1/1"})),
+                ("str", vstr("hello")), ("i", vint(7))]
+        wrong = {"s": ["l", "h", "z", "str"], "l": ["s", "h", "z", "str"], "z": ["s", "l", "h", "str"]}
+        for dst in wrong["s"]:
+            out.append(self.fixed_probe("dir%d" % n, base, ["SMOVE", "s", dst, "m1"])); n += 1
+            for w in ("SUNIONSTORE", "SINTERSTORE", "SDIFFSTORE"):
+                out.append(self.fixed_probe("dir%d" % n, base, [w, "d", "s", dst])); n += 1
+                out.append(self.fixed_probe("dir%d" % n, base, [w, "s", "s", dst])); n += 1
+        for dst in wrong["l"]:
+            for a, b in (("LEFT", "RIGHT"), ("RIGHT", "LEFT")):
+                out.append(self.fixed_probe("dir%d" % n, base, ["LMOVE", "l", dst, a, b])); n += 1
+        for dst in wrong["z"]:
+            for w in ("ZUNIONSTORE", "ZINTERSTORE", "ZDIFFSTORE"):
+                out.append(self.fixed_probe("dir%d" % n, base, [w, "d", "z", dst])); n += 1
+                out.append(self.fixed_probe("dir%d" % n, base, [w, "z", "z", dst])); n += 1
+            out.append(self.fixed_probe("dir%d" % n, base, ["ZRANGESTORE", dst, "z", "0", "5"])); n += 1
+            out.append(self.fixed_probe("dir%d" % n, base, ["ZMPOP", dst, "z", "MIN"])); n += 1
+        for k in ("s", "l", "h", "z"):
+            out += [self.fixed_probe("dir%d" % (n + j), base, argv) for j, argv in enumerate(
+                [["MSET", "x", "1", k], ["RENAME", "nosuch", k], ["INCR", k], ["APPEND", k, "x"], ["SETRANGE", k, "0", "x"],
+                 ["GETDEL", k], ["GETEX", k, "EX", "10"], ["LPUSH", k, "x"] if k != "l" else ["SADD", k, "x"],
+                 ["HINCRBY", k, "f", "1"] if k != "h" else ["ZADD", k, "1", "m"]])]
+            n += 9
+        return out
 
     def probe(self, sid, argv, conn=0):
         s = Script(sid, {"now": NOW})
@@ -79,7 +129,7 @@ class C13(PropertyCheck):
         alias = gen_set.alias_probes(rng, 0, "als") + gen_zset.alias_scripts("alz")
         for s in alias:
             s.probe = False
-        return {"read_only": ro_scripts, "failing_invocations": fail_scripts, "alias_probes": alias}
+        return {"read_only": ro_scripts, "failing_invocations": fail_scripts, "alias_probes": alias, "directed": self.directed()}
 
     def rule(self):
         return ("read_only: every command of the code's own table whose categories say read and not write (%d words now) x plausible, "
